@@ -12,7 +12,7 @@ impl Modulator for KvMod {
 	fn finished(&self) -> bool { false }
 }
 
-// @h prop=C17,C08 tier=quick kind=main timeout=280
+// @h prop=C17,C08 tier=quick kind=main timeout=600
 // @bounds Parameter<f64> Idle on Value::FromModulator with the identity mapping (0..1 -> 0..1, linear); a real Arena<Box<dyn Modulator>> of capacity 1 whose probe modulator is present with a value k/8 in [0,1], absent, or REPLACED in its slot by a newer modulator (stale id); one update
 // @funcs Parameter::update, Parameter::calculate_new_raw_value, Value::raw_value, Info::modulator_value, Mapping::map
 // @catches a linked parameter lagging (reading a cached value), not holding its value when the modulator is removed, or following a newer modulator that reuses the slot
